@@ -119,7 +119,8 @@ static void run_once(const Json& plan,int fault_op,long fault_k,bool verbose,boo
   AllocCfg cfg; const Json& a=plan["alloc"];
   cfg.reuse=(int)a["reuse"].as_int(REUSE_LIFO); cfg.residue=(int)a["residue"].as_int(RESIDUE_RANDOM); cfg.fill=(int)a["fill"].as_int(FILL_NANPAYLOAD);
   cfg.c_reuse=REUSE_NONE; cfg.seed=(uint64_t)a["seed"].as_int(1);
-  alloc_run_begin(cfg);
+  cfg.passthrough=0;
+    alloc_run_begin(cfg);
   uint64_t bseed=(uint64_t)plan["buf_seed"].as_int(7);
   for(int b=0;b<NBUFS;b++){
     ex->c.ubuf[b]=user_buffer_alloc(BUFLEN,b);
